@@ -27,7 +27,9 @@ namespace {
 
 enum HK { H_LOG_INV = 1, H_LOG_RET, H_TID, H_REC, H_PHASE };
 
-// ops: rec <thread> <level> <module 0..2> <len> <with_args> <yields> <sleep_ms>      phase boundary: cut (all threads join; file sink disabled, checked, re-enabled)
+// ops: rec <thread> <level> <module 0..2> <len> <with_args> <yields> <sleep_ms>
+//      cut <new rec level|-1> <new file level|-1> <via module-string API>     phase boundary: all threads join; file sink disabled and checked;
+//                                                                             default levels possibly changed; file sink re-enabled
 void generate(sim::Rng &r, uint64_t seed, const std::string &tier, sim::Plan &p) {
   bool thorough = tier == "thorough";
   long maxlen = r.pick((const long[]){40, 100, 2047, 2048, 2049, 5000, 100 << 10});
@@ -52,7 +54,7 @@ void generate(sim::Rng &r, uint64_t seed, const std::string &tier, sim::Plan &p)
   int n = (int)r.range(1, thorough ? 60 : 24);
   for (int i = 0; i < n; ++i) {
     sim::Op op;
-    if (i > 2 && r.chance(60)) { op.kind = "cut"; p.ops.push_back(op); continue; }
+    if (i > 2 && r.chance(80)) { op.kind = "cut"; op.a = {r.chance(500) ? -1 : r.range(0, 7), r.chance(500) ? -1 : r.range(0, 7), r.below(2)}; p.ops.push_back(op); continue; }   // [new recording-sink level, new file-sink level, via setLevel("", l) or setLevel(l)]
     op.kind = "rec";
     long len;
     unsigned x = (unsigned)r.below(100);
@@ -243,8 +245,9 @@ void execute(const sim::Plan &plan) {
   // records
   std::vector<long> seqs((size_t)nthr, 0);
   int phase = 0, nphase = 1;
+  std::vector<const sim::Op *> cuts;
   for (const sim::Op &op : plan.ops) {
-    if (op.kind == "cut") { ++phase; nphase = phase + 1; continue; }
+    if (op.kind == "cut") { ++phase; nphase = phase + 1; cuts.push_back(&op); continue; }
     if (op.kind != "rec") continue;
     Rec r; r.t = ((op.arg(0) % nthr) + nthr) % nthr; r.level = std::max(0L, std::min(7L, op.arg(1))); r.mod = ((op.arg(2) % 3) + 3) % 3;
     r.len = std::max(0L, std::min(320000L, op.arg(3))); r.with_args = op.arg(4) != 0; r.phase = phase; r.seq = seqs[(size_t)r.t]++;
@@ -304,7 +307,15 @@ void execute(const sim::Plan &plan) {
         if (sim::violation_count() == 0) check_against("file sink", "right after disable()", exp_ph, tail, tid_of);
       }
     }
-    if (ph + 1 < nphase) { sim::sleep_ns(1100 * 1000000LL); fsink.enable(); }   // a new second: a new file name
+    if (ph + 1 < nphase) {
+      // between phases nobody logs: change the default thresholds through the public setters
+      const sim::Op *cut = cuts[(size_t)ph];
+      long nr = cut->arg(0, -1), nf = cut->arg(1, -1); bool via_str = cut->arg(2) != 0;
+      if (nr >= 0) { rec_level = std::min(7L, nr); if (via_str) rsink.setLevel("", (int)rec_level); else rsink.setLevel((int)rec_level); }
+      if (nf >= 0) { file_level = std::min(7L, nf); if (via_str) fsink.setLevel("", (int)file_level); else fsink.setLevel((int)file_level); }
+      sim::sleep_ns(1100 * 1000000LL);      // a new second: a new file name
+      fsink.enable();
+    }
   }
   rsink.disable();
   sim::finish();
